@@ -226,4 +226,175 @@ theorem iterPositionsSt_encode (sul : SULW) (recs : List LR) (ℓ : Layout) (hs 
   unfold encode specPositionsS flatWithPos
   exact iterPositionsSt_flat sul _ hs hcut (segsWF_cutAll recs ℓ.recs 0 hc.1 hc.2) (seqOK_cutAll recs ℓ.recs hc.1)
 
+/-! ### entry k of the specification list is `recEntry` of record k -/
+
+theorem segTable_append : ∀ (A B : List TSeg) (pos vp vl : Nat),
+    segTable pos vp vl (A ++ B) = segTable pos vp vl A ++
+      segTable (walkEnd pos vp vl A).1 (walkEnd pos vp vl A).2.1 (walkEnd pos vp vl A).2.2 B := by
+  intro A
+  induction A with
+  | nil => intro B pos vp vl; rfl
+  | cons x xs ih =>
+    intro B pos vp vl
+    simp only [List.cons_append, segTable, walkEnd]
+    cases x.d.vr with
+    | some L => simp only [ih, List.cons_append]
+    | none => simp only [ih, List.cons_append]
+
+theorem segTable_length : ∀ (A : List TSeg) (pos vp vl : Nat), (segTable pos vp vl A).length = A.length := by
+  intro A
+  induction A with
+  | nil => intro pos vp vl; rfl
+  | cons x xs ih =>
+    intro pos vp vl
+    simp only [segTable]
+    cases x.d.vr <;> simp [ih]
+
+theorem cutRec_length (r : LR) : ∀ (ds : List SegDesc) (f : Bool) (data : Bytes), (cutRec r f ds data).length = ds.length := by
+  intro ds
+  induction ds with
+  | nil => intro f data; rfl
+  | cons d ds ih => intro f data; simp [cutRec, ih]
+
+theorem collectPos_none_cons (s : TSeg) (t : SegPos) (X : List (TSeg × SegPos)) :
+    collectPos ((s, t) :: X) none =
+      collectPos ((s, t) :: X) (some ⟨t.vrPos, t.lrshPos, attrByte s.eflr s.first s.last s.d, s.type, 0⟩) := by
+  simp only [collectPos]
+
+theorem collectPos_cutRec (r : LR) (Y : List (TSeg × SegPos)) :
+    ∀ (ds : List SegDesc) (f : Bool) (data : Bytes) (tbl : List SegPos) (c : PosSpec), ds ≠ [] →
+      tbl.length = ds.length →
+      collectPos ((cutRec r f ds data).zip tbl ++ Y) (some c) =
+        ⟨c.vrPos, c.lrshPos, c.attr, c.type, c.ldLen + (ds.map (fun d => d.n + d.padBytes.length)).sum⟩ ::
+          collectPos Y none := by
+  intro ds
+  induction ds with
+  | nil => intro f data tbl c h; exact absurd rfl h
+  | cons d ds' ih =>
+    intro f data tbl c _ hl
+    cases tbl with
+    | nil => simp at hl
+    | cons t tbl' =>
+      cases ds' with
+      | nil =>
+        have : tbl' = [] := by simpa using hl
+        subst this
+        simp [cutRec, collectPos]
+      | cons d2 ds'' =>
+        have hc : cutRec r f (d :: d2 :: ds'') data = ⟨r.eflr, r.type, f, false, d, data.take d.n⟩ ::
+            cutRec r false (d2 :: ds'') (data.drop d.n) := rfl
+        rw [hc, List.zip_cons_cons, List.cons_append]
+        simp only [collectPos, Bool.false_eq_true, if_false]
+        rw [ih false (data.drop d.n) tbl' _ (by simp) (by simpa using hl)]
+        simp only [List.map_cons, List.sum_cons, Nat.add_assoc]
+
+theorem collectPos_cutAll : ∀ (recs : List LR) (dss : List (List SegDesc)) (tbl : List SegPos) (Y : List (TSeg × SegPos)),
+    recsOK recs dss = true → tbl.length = (cutAll recs dss).length →
+    ∃ E, E.length = recs.length ∧ collectPos ((cutAll recs dss).zip tbl ++ Y) none = E ++ collectPos Y none := by
+  intro recs
+  induction recs with
+  | nil => intro dss tbl Y _ _; cases dss <;> exact ⟨[], rfl, by simp [cutAll]⟩
+  | cons rc rs ih =>
+    intro dss tbl Y h hl
+    cases dss with
+    | nil => simp [recsOK] at h
+    | cons ds dss =>
+      simp only [recsOK, recOK, Bool.and_eq_true, Bool.not_eq_true'] at h
+      obtain ⟨⟨⟨⟨⟨hne, _⟩, _⟩, _⟩, _⟩, hrest⟩ := h
+      have hne' : ds ≠ [] := by intro h0; simp [h0] at hne
+      simp only [cutAll, List.length_append, cutRec_length] at hl
+      have hsplit : tbl = tbl.take ds.length ++ tbl.drop ds.length := (List.take_append_drop _ _).symm
+      have hl1 : (tbl.take ds.length).length = ds.length := by simp; omega
+      have hl2 : (tbl.drop ds.length).length = (cutAll rs dss).length := by simp; omega
+      obtain ⟨E, hE, hEq⟩ := ih dss (tbl.drop ds.length) Y hrest hl2
+      simp only [cutAll]
+      rw [hsplit, List.zip_append (l₁ := cutRec rc true ds rc.payload) (l₂ := tbl.take ds.length)
+        (by rw [cutRec_length, hl1]), List.append_assoc]
+      cases hds : ds with
+      | nil => exact absurd hds hne'
+      | cons d ds' =>
+        cases htk : tbl.take (d :: ds').length with
+        | nil => rw [hds, htk] at hl1; simp at hl1
+        | cons t tk =>
+          have hc : cutRec rc true (d :: ds') rc.payload = ⟨rc.eflr, rc.type, true, ds'.isEmpty, d, rc.payload.take d.n⟩ ::
+              cutRec rc false ds' (rc.payload.drop d.n) := rfl
+          have := collectPos_cutRec rc ((cutAll rs dss).zip (tbl.drop (d :: ds').length) ++ Y) (d :: ds') true rc.payload
+            (t :: tk) ⟨t.vrPos, t.lrshPos, attrByte rc.eflr true ds'.isEmpty d, rc.type, 0⟩ (by simp)
+            (by rw [← htk, ← hds]; exact hl1)
+          rw [hc, List.zip_cons_cons, List.cons_append] at this ⊢
+          rw [collectPos_none_cons, this]
+          rw [hds] at hEq
+          exact ⟨_ :: E, by simp [hE], by rw [hEq]; rfl⟩
+
+theorem recsOK_append : ∀ (rpre : List LR) (lpre : List (List SegDesc)) (X : List LR) (Y : List (List SegDesc)),
+    lpre.length = rpre.length → recsOK (rpre ++ X) (lpre ++ Y) = true → recsOK rpre lpre = true ∧ recsOK X Y = true := by
+  intro rpre
+  induction rpre with
+  | nil => intro lpre X Y hl h; cases lpre with
+    | nil => exact ⟨rfl, h⟩
+    | cons _ _ => simp at hl
+  | cons x xs ih =>
+    intro lpre X Y hl h
+    cases lpre with
+    | nil => simp at hl
+    | cons l ls =>
+      simp only [List.cons_append, recsOK, Bool.and_eq_true] at h ⊢
+      obtain ⟨h1, h2⟩ := ih ls X Y (by simpa using hl) h.2
+      exact ⟨⟨h.1, h1⟩, h2⟩
+
+theorem positions_entry_flat (rpre rpost : List LR) (r : LR) (lpre lpost : List (List SegDesc)) (d : SegDesc)
+    (ds : List SegDesc) (hlen : lpre.length = rpre.length)
+    (hc : recsOK (rpre ++ r :: rpost) (lpre ++ (d :: ds) :: lpost) = true) :
+    (specPositionsS (rpre ++ r :: rpost) ⟨lpre ++ (d :: ds) :: lpost⟩)[rpre.length]? =
+      some ⟨(recEntry rpre lpre d).1, (recEntry rpre lpre d).2, attrByte r.eflr true ds.isEmpty d, r.type,
+        0 + ((d :: ds).map (fun x => x.n + x.padBytes.length)).sum⟩ := by
+  obtain ⟨hP, _⟩ := recsOK_append rpre lpre _ _ hlen hc
+  unfold specPositionsS flatWithPos
+  simp only []
+  rw [cutAll_append rpre lpre r (d :: ds) rpost lpost hlen, segTable_append]
+  generalize hw : walkEnd 80 0 0 (cutAll rpre lpre) = w
+  rw [List.zip_append (l₁ := cutAll rpre lpre) (l₂ := segTable 80 0 0 (cutAll rpre lpre)) (by rw [segTable_length])]
+  obtain ⟨E, hE, hEq⟩ := collectPos_cutAll rpre lpre (segTable 80 0 0 (cutAll rpre lpre))
+    ((cutRec r true (d :: ds) r.payload ++ cutAll rpost lpost).zip
+      (segTable w.1 w.2.1 w.2.2 (cutRec r true (d :: ds) r.payload ++ cutAll rpost lpost))) hP (by rw [segTable_length])
+  rw [hEq, List.getElem?_append_right (by omega), hE, Nat.sub_self]
+  -- the record's own segments
+  rw [segTable_append]
+  rw [List.zip_append (l₁ := cutRec r true (d :: ds) r.payload)
+    (l₂ := segTable w.1 w.2.1 w.2.2 (cutRec r true (d :: ds) r.payload)) (by rw [segTable_length])]
+  have hc0 : cutRec r true (d :: ds) r.payload = ⟨r.eflr, r.type, true, ds.isEmpty, d, r.payload.take d.n⟩ ::
+      cutRec r false ds (r.payload.drop d.n) := rfl
+  generalize hY : (cutAll rpost lpost).zip _ = Y
+  have hent : recEntry rpre lpre d = (match d.vr with
+      | some _ => (w.1, w.1 + 4)
+      | none => (w.2.1, w.1)) := by
+    unfold recEntry entryAfter; rw [hw]; rfl
+  cases hv : d.vr with
+  | some L =>
+    rw [hv] at hent
+    have htab : segTable w.1 w.2.1 w.2.2 (cutRec r true (d :: ds) r.payload) =
+        ⟨w.1, L, w.1 + 4⟩ :: segTable (w.1 + 4 + d.segLen) w.1 L (cutRec r false ds (r.payload.drop d.n)) := by
+      rw [hc0]; simp only [segTable, hv]
+    have := collectPos_cutRec r Y (d :: ds) true r.payload
+      (⟨w.1, L, w.1 + 4⟩ :: segTable (w.1 + 4 + d.segLen) w.1 L (cutRec r false ds (r.payload.drop d.n)))
+      ⟨w.1, w.1 + 4, attrByte r.eflr true ds.isEmpty d, r.type, 0⟩ (by simp)
+      (by simp [segTable_length, cutRec_length])
+    rw [htab]
+    rw [hc0, List.zip_cons_cons, List.cons_append] at this ⊢
+    rw [collectPos_none_cons, this, hent]
+    rfl
+  | none =>
+    rw [hv] at hent
+    have htab : segTable w.1 w.2.1 w.2.2 (cutRec r true (d :: ds) r.payload) =
+        ⟨w.2.1, w.2.2, w.1⟩ :: segTable (w.1 + d.segLen) w.2.1 w.2.2 (cutRec r false ds (r.payload.drop d.n)) := by
+      rw [hc0]; simp only [segTable, hv]
+    have := collectPos_cutRec r Y (d :: ds) true r.payload
+      (⟨w.2.1, w.2.2, w.1⟩ :: segTable (w.1 + d.segLen) w.2.1 w.2.2 (cutRec r false ds (r.payload.drop d.n)))
+      ⟨w.2.1, w.1, attrByte r.eflr true ds.isEmpty d, r.type, 0⟩ (by simp)
+      (by simp [segTable_length, cutRec_length])
+    rw [htab]
+    rw [hc0, List.zip_cons_cons, List.cons_append] at this ⊢
+    rw [collectPos_none_cons, this, hent]
+    rfl
+
 end TD.C02
